@@ -166,6 +166,21 @@ MergeStore(st, s, v) ==
     MergeWith(st, s, v, [d \in DOMAIN v |->
         Cardinality({i \in DOMAIN RowsOf(st, d) : Key(RowsOf(st, d)[i][2]) <= Key(s)})])
 
+\* bi_merge(store, table) for a table with several stamps (an earlier snapshot of the store, a
+\* re-delivered batch): per date the stored rows, then the table's rows, sorted by stamp with the
+\* stable sort (each row of the table lands behind every row with a stamp <= its own), cleaned once.
+RECURSIVE InsertAll(_, _)
+InsertAll(rows, new) ==
+    IF new = <<>> THEN rows
+    ELSE LET row == Head(new)
+             le  == Cardinality({i \in DOMAIN rows : Key(rows[i][2]) <= Key(row[2])})
+         IN  InsertAll(PutAfter(rows, row, le), Tail(new))
+MergeTable(st, tbl) == [d \in DOMAIN st \cup DOMAIN tbl |-> DropRepeats(InsertAll(RowsOf(st, d), RowsOf(tbl, d)))]
+\* the store as it stood at the instant t: its rows stamped up to t (what a copy kept since then holds)
+Snapshot(st, t) == [d \in {e \in DOMAIN st : \E i \in DOMAIN st[e] : Instant(st[e][i][2]) <= t} |->
+                        SelectSeq(st[d], LAMBDA r : Instant(r[2]) <= t)]
+StoredInstants(st) == UNION {{Instant(st[d][i][2]) : i \in DOMAIN st[d]} : d \in DOMAIN st}
+
 \* bi_read(store, asof = T, what), T a written time: rows with stamp <= T, sorted by stamp, per
 \* date the last (what = -1) or the first (what = 0) row; dates without such a row are absent.
 Visible(rows, T) == SelectSeq(rows, LAMBDA r : Key(r[2]) <= Key(T))
@@ -199,6 +214,15 @@ MergeAgain(s, v) ==
        ELSE \E slot \in SlotChoices(store, s, v) : store' = MergeWith(store, s, v, slot)
     /\ out' = NoOut
 
+\* store = bi_merge(store, older), older = the store as it stood at the instant t (a copy kept
+\* since, yesterday's file delivered again): every version in it is already in the store - not a
+\* publication, and no as-of read may change.  One call, many stamps, older than what is stored.
+Replay(t) ==
+    /\ t \in StoredInstants(store)
+    /\ pubs' = pubs
+    /\ store' = MergeTable(store, Snapshot(store, t))
+    /\ out' = NoOut
+
 \* bi_read(store, asof = T, what), T a written time: a pure query
 Read(T, what) ==
     /\ out' = [T |-> T, what |-> what, res |-> ReadStore(store, T, what)]
@@ -206,8 +230,9 @@ Read(T, what) ==
 
 DoMerge == Len(pubs) < MaxMerges /\ \E s \in WStamps, v \in Versions : Merge(s, v)
 DoAgain == \E s \in WStamps, v \in Versions : MergeAgain(s, v)
+DoReplay == \E t \in Stamps : Replay(t)
 DoRead  == \E T \in WTimes, w \in Whats : Read(T, w)
-BNext   == DoMerge \/ DoAgain \/ DoRead
+BNext   == DoMerge \/ DoAgain \/ DoReplay \/ DoRead
 
 \* =============================================================================================
 \* PROPERTIES
@@ -244,6 +269,10 @@ NoLookAheadLaw == [][pubs' # pubs =>
                         /\ AsOf(pubs', T) = AsOf(pubs, T)
                         /\ \A d \in PublishedBy(pubs, T) : FirstAdmitted(pubs', d, T) = FirstAdmitted(pubs, d, T)]_bvars
 \* merging a version that is already in the store leaves every as-of read unchanged
+\* (MergeAgain and Replay: the steps that keep pubs; ReplayKeeps says it of Replay by name, because
+\*  a Replay that changes nothing at all is a stuttering step and invisible to AgainNoop)
+ReplayKeeps == \A t \in StoredInstants(store) :
+                  \A T \in WTimes, w \in Whats : ReadStore(MergeTable(store, Snapshot(store, t)), T, w) = ReadStore(store, T, w)
 AgainNoop   == [][(pubs' = pubs /\ store' # store) =>
                     \A T \in WTimes, w \in Whats : ReadStore(store', T, w) = ReadStore(store, T, w)]_bvars
 
